@@ -84,20 +84,16 @@ func (c *cg) step() {
 				}
 			}
 			id := ids[c.rnd(len(ids))]
-			d := c.itOpen[id]
 			switch r := c.rnd(100); {
 			case r < 12:
 				c.emit(fmt.Sprintf("iclose id=%d", id))
 				delete(c.itOpen, id)
 				g.Count("op:iclose")
 				return
-			case r < 30 && (!c.view || findingPrefixSeekNoEffect):
+			case r < 30:
 				// Seek at every relation to the key set and to the iterator's own domain: before the first key, on a key,
 				// between keys, after the last, outside [start, end), nil, on an exhausted iterator
 				k := c.bound()
-				for d[2] == "1" && k == "-" && c.hasBdg && !findingBdgSeekEmptyReverse {
-					k = c.bound()
-				}
 				c.emit(fmt.Sprintf("iseek id=%d k=%s", id, k))
 				g.Count("op:iseek")
 				g.Count("seek-key:" + boundKind(k))
@@ -328,14 +324,6 @@ func (c *cg) step0() {
 	}
 }
 
-// open findings of the Seek family (proposed/C19-seek.md) and of oversized batches (proposed/C19-big-batch-split.md);
-// false = the generator stays away from them
-const (
-	findingBigBatchSplit       = false // bolt flushes a batch by itself at 100000 ops, badger's WriteBatch whenever its txn is full
-	findingPrefixSeekNoEffect  = false // prefixIterator.Seek has a value receiver: the iterator is not moved
-	findingBdgSeekEmptyReverse = false // badgerIterator.Seek([]byte{}) on a reverse iterator rewinds to the last key
-)
-
 func boundKind(b string) string {
 	if b == "nil" || b == "-" {
 		return b
@@ -560,9 +548,9 @@ func (P) Generate(g *hx.Gen) {
 		g.Case("child probes: closed store, double close, corrupt files, reshard", ops, true)
 	}
 	// ---- batches of a few thousand ops stay atomic on every backend; beyond bolt's 100000 ops / badger's transaction size the
-	// adapters write a part by themselves BEFORE Write (finding big-batch-split, gated)
+	// adapters write a part by themselves BEFORE Write (known finding big-batch-split)
 	g.Case("big batch below every limit", []string{"case backends=mem,ldb,bolt,bdg prefix=none", "bigbatch n=3000 tag=a", "bigbatch n=1 tag=b", "bigbatch n=0 tag=c"}, true)
-	if findingBigBatchSplit {
+	{ // KNOWN FINDING big-batch-split
 		g.Case("big batch beyond badger's transaction size", []string{"case backends=mem,ldb,bdg prefix=none", "bigbatch n=40000 tag=a"}, true)
 		g.Case("big batch beyond boltMaxBatchSize", []string{"case backends=mem,bolt prefix=none", "bigbatch n=100001 tag=a"}, true)
 	}
@@ -579,11 +567,11 @@ func (P) Generate(g *hx.Gen) {
 		"iseek id=0 k=07", "ivalid id=0", "ikey id=0", "inext id=0", "iseek id=0 k=09", "istep id=0", "iseek id=0 k=nil", "istep id=0", "istep id=0", "istep id=0", "istep id=0", "istep id=0", "iseek id=0 k=06", "istep id=0", "istep id=0",
 		"iopen id=1 s=07 e=03 rev=1", "iseek id=1 k=09", "idomain id=1", "istep id=1", "iseek id=1 k=06", "istep id=1", "iseek id=1 k=05", "istep id=1", "iseek id=1 k=03", "ivalid id=1", "iseek id=1 k=01", "ivalid id=1", "iseek id=1 k=nil", "istep id=1", "iseek id=1 k=0400", "istep id=1", "istep id=1", "istep id=1", "inext id=1", "ikey id=1",
 		"iclose id=0", "iclose id=1"}, true)
-	if findingPrefixSeekNoEffect {
+	{ // KNOWN FINDING prefix-seek-no-effect
 		g.Case("seek through a PrefixDB view", []string{"case backends=mem,ldb,bolt,bdg prefix=70", "set k=01 v=01", "set k=03 v=03", "set k=05 v=05",
 			"iopen id=0 s=nil e=nil rev=0", "iseek id=0 k=03", "istep id=0", "iseek id=0 k=09", "ivalid id=0", "iclose id=0"}, true)
 	}
-	if findingBdgSeekEmptyReverse {
+	{ // regression case of 86092ca
 		g.Case("badger reverse seek to the empty key", []string{"case backends=mem,ldb,bolt,bdg prefix=none", "set k=01 v=01", "set k=03 v=03",
 			"iopen id=0 s=nil e=nil rev=1", "iseek id=0 k=-", "istep id=0", "iclose id=0"}, true)
 	}
